@@ -182,3 +182,125 @@ def g_map(rng, level=0, n_random=100):
     for _ in range(n_random):
         N = int(rng.integers(1, 5))
         yield {'gs_in': bits(rng, 2 * N, 2 * N), 'ps_in': rng.integers(0, 4, size=2 * N).astype(np.int64)}
+
+
+# ------------------------------------------------------------------ class layer (objects are built with the real classes)
+PA = 'pyclifford/paulialg.py::'
+ST = 'pyclifford/stabilizer.py::'
+
+
+def _pc():
+    import pyclifford.paulialg as pa
+    import pyclifford.stabilizer as st
+    return pa, st
+
+
+@gen(PA + 'Pauli.__matmul__#Pauli')
+def g_matmul(rng, level=0, n_random=200):
+    pa, _ = _pc()
+    for N in (1, 2):
+        for a in all_strings(N):
+            for b in all_strings(N):
+                for p1 in range(4):
+                    yield {'self': pa.Pauli(a.copy(), p1), 'other': pa.Pauli(b.copy(), (3 * p1 + 1) % 4)}
+    for _ in range(n_random):
+        N = int(rng.integers(1, 5))
+        yield {'self': pa.Pauli(bits(rng, 2 * N), int(rng.integers(0, 4))), 'other': pa.Pauli(bits(rng, 2 * N), int(rng.integers(0, 4)))}
+
+
+@gen(PA + 'Pauli.__neg__')
+@gen(PA + 'Pauli.copy')
+def g_pauli(rng, level=0, n_random=100):
+    pa, _ = _pc()
+    for _ in range(n_random):
+        N = int(rng.integers(1, 5))
+        yield {'self': pa.Pauli(bits(rng, 2 * N), int(rng.integers(0, 4)))}
+
+
+@gen(PA + 'PauliList.copy')
+def g_plist(rng, level=0, n_random=100):
+    pa, _ = _pc()
+    for _ in range(n_random):
+        N = int(rng.integers(1, 4))
+        L = int(rng.integers(0, 4))
+        yield {'self': pa.PauliList(bits(rng, L, 2 * N), rng.integers(0, 4, L).astype(np.int64))}
+
+
+@gen(PA + 'PauliList.rotate_by#nomask')
+def g_lrot(rng, level=0, n_random=200):
+    pa, _ = _pc()
+    for a in g_rotate(rng, level, n_random):
+        yield {'self': pa.PauliList(a['gs'], a['ps']), 'generator': pa.Pauli(a['g'], a['p']), 'mask': None}
+
+
+@gen(PA + 'PauliList.transform_by#nomask')
+def g_ltr(rng, level=0, n_random=200):
+    pa, st = _pc()
+    for a in g_transform(rng, level, n_random):
+        yield {'self': pa.PauliList(a['gs_in'], a['ps_in']), 'clifford_map': st.CliffordMap(a['gs_map'], a['ps_map']), 'mask': None}
+
+
+def _rand_map(rng, N):
+    _, st = _pc()
+    gm, pm = state_to_map_order(*rand_tableau(rng, N))
+    return st.CliffordMap(gm, pm)
+
+
+@gen(ST + 'CliffordMap.copy')
+@gen(ST + 'CliffordMap.to_state#none')
+def g_cmap(rng, level=0, n_random=100):
+    for _ in range(n_random):
+        yield {'self': _rand_map(rng, int(rng.integers(1, 4))), 'r': None}
+
+
+@gen(ST + 'CliffordMap.to_state#r')
+def g_cmap_r(rng, level=0, n_random=100):
+    for _ in range(n_random):
+        N = int(rng.integers(1, 4))
+        yield {'self': _rand_map(rng, N), 'r': int(rng.integers(0, N + 1))}
+
+
+@gen(ST + 'CliffordMap.compose')
+def g_compose(rng, level=0, n_random=100):
+    for _ in range(n_random):
+        N = int(rng.integers(1, 4))
+        yield {'self': _rand_map(rng, N), 'other': _rand_map(rng, N)}
+
+
+def _rand_state(rng, N):
+    _, st = _pc()
+    gs, ps = rand_tableau(rng, N)
+    s = st.StabilizerState(gs, ps=ps)
+    s.r = int(rng.integers(0, N + 1))
+    return s
+
+
+@gen(ST + 'StabilizerState.copy')
+@gen(ST + 'StabilizerState.to_map')
+def g_state(rng, level=0, n_random=100):
+    for _ in range(n_random):
+        yield {'self': _rand_state(rng, int(rng.integers(1, 4)))}
+
+
+@gen(ST + 'StabilizerState.expect#list')
+def g_expect(rng, level=0, n_random=100):
+    pa, _ = _pc()
+    for _ in range(n_random):
+        N = int(rng.integers(1, 4))
+        L = int(rng.integers(1, 5))
+        yield {'self': _rand_state(rng, N), 'obs': pa.PauliList(bits(rng, L, 2 * N), 2 * bits(rng, L))}
+
+
+@gen(ST + 'identity_map')
+def g_ident(rng, level=0, n_random=6):
+    for N in range(0, 6):
+        yield {'N': N}
+
+
+@gen(U + 'stabilizer_expect')
+def g_kexpect(rng, level=0, n_random=200):
+    for _ in range(n_random):
+        N = int(rng.integers(1, 4))
+        L = int(rng.integers(1, 5))
+        gs, ps = rand_tableau(rng, N)
+        yield {'gs_stb': gs, 'ps_stb': ps, 'gs_obs': bits(rng, L, 2 * N), 'ps_obs': 2 * bits(rng, L), 'r': int(rng.integers(0, N + 1))}
